@@ -182,7 +182,8 @@ func decodeKeyCharByUnicodeRune(buf []byte, cursor int64) ([]byte, int64, error)
 	if utf16.IsSurrogate(r) {
 		cursor += defaultOffset
 		if cursor+surrogateOffset >= int64(len(buf)) || buf[cursor] != '\\' || buf[cursor+1] != 'u' {
-			return []byte(string(unicode.ReplacementChar)), cursor + defaultOffset - 1, nil
+			// lone surrogate: only the four hex digits have been consumed
+			return []byte(string(unicode.ReplacementChar)), cursor - 1, nil
 		}
 		cursor += 2
 		r2 := unicodeToRune(buf[cursor : cursor+defaultOffset])
@@ -193,9 +194,11 @@ func decodeKeyCharByUnicodeRune(buf []byte, cursor int64) ([]byte, int64, error)
 	return []byte(string(r)), cursor + defaultOffset - 1, nil
 }
 
+// decodeKeyCharByEscapedChar decodes the escape sequence whose character after the
+// backslash is at cursor. On success the returned cursor is the index of the last
+// byte of the sequence (the callers advance once more).
 func decodeKeyCharByEscapedChar(buf []byte, cursor int64) ([]byte, int64, error) {
 	c := buf[cursor]
-	cursor++
 	switch c {
 	case '"':
 		return []byte{'"'}, cursor, nil
@@ -214,9 +217,11 @@ func decodeKeyCharByEscapedChar(buf []byte, cursor int64) ([]byte, int64, error)
 	case 't':
 		return []byte{'\t'}, cursor, nil
 	case 'u':
-		return decodeKeyCharByUnicodeRune(buf, cursor)
+		return decodeKeyCharByUnicodeRune(buf, cursor+1)
+	case nul:
+		return nil, 0, errors.ErrUnexpectedEndOfJSON("escaped string", cursor)
 	}
-	return nil, cursor, nil
+	return nil, 0, errors.ErrInvalidCharacter(c, "escaped string", cursor)
 }
 
 func decodeKeyByBitmapUint8(d *structDecoder, buf []byte, cursor int64) (int64, *structFieldSet, error) {
@@ -240,14 +245,13 @@ func decodeKeyByBitmapUint8(d *structDecoder, buf []byte, cursor int64) (int64, 
 			}
 			keyIdx := 0
 			bitmap := d.keyBitmapUint8
-			start := cursor
 			for {
 				c := char(b, cursor)
 				switch c {
 				case '"':
 					fieldSetIndex := bits.TrailingZeros8(curBit)
 					field := d.sortedFieldSets[fieldSetIndex]
-					keyLen := cursor - start
+					keyLen := int64(keyIdx) // number of decoded key bytes, not raw bytes
 					cursor++
 					if keyLen < field.keyLen {
 						// early match
@@ -306,14 +310,13 @@ func decodeKeyByBitmapUint16(d *structDecoder, buf []byte, cursor int64) (int64,
 			}
 			keyIdx := 0
 			bitmap := d.keyBitmapUint16
-			start := cursor
 			for {
 				c := char(b, cursor)
 				switch c {
 				case '"':
 					fieldSetIndex := bits.TrailingZeros16(curBit)
 					field := d.sortedFieldSets[fieldSetIndex]
-					keyLen := cursor - start
+					keyLen := int64(keyIdx) // number of decoded key bytes, not raw bytes
 					cursor++
 					if keyLen < field.keyLen {
 						// early match
@@ -424,7 +427,7 @@ func decodeKeyByBitmapUint8Stream(d *structDecoder, s *Stream) (*structFieldSet,
 				case '"':
 					fieldSetIndex := bits.TrailingZeros8(curBit)
 					field := d.sortedFieldSets[fieldSetIndex]
-					keyLen := cursor - start
+					keyLen := int64(keyIdx) // number of decoded key bytes, not raw bytes
 					cursor++
 					s.cursor = cursor
 					if keyLen < field.keyLen {
@@ -511,7 +514,7 @@ func decodeKeyByBitmapUint16Stream(d *structDecoder, s *Stream) (*structFieldSet
 				case '"':
 					fieldSetIndex := bits.TrailingZeros16(curBit)
 					field := d.sortedFieldSets[fieldSetIndex]
-					keyLen := cursor - start
+					keyLen := int64(keyIdx) // number of decoded key bytes, not raw bytes
 					cursor++
 					s.cursor = cursor
 					if keyLen < field.keyLen {
@@ -588,10 +591,11 @@ func decodeKeyCharByUnicodeRuneStream(s *Stream) ([]byte, error) {
 	return []byte(string(r)), nil
 }
 
+// decodeKeyCharByEscapeCharStream decodes the escape sequence whose character after
+// the backslash is at s.cursor and leaves s.cursor on the last byte of the sequence.
 func decodeKeyCharByEscapeCharStream(s *Stream) ([]byte, error) {
-	c := s.buf[s.cursor]
-	s.cursor++
 RETRY:
+	c := s.buf[s.cursor]
 	switch c {
 	case '"':
 		return []byte{'"'}, nil
@@ -610,6 +614,7 @@ RETRY:
 	case 't':
 		return []byte{'\t'}, nil
 	case 'u':
+		s.cursor++
 		return decodeKeyCharByUnicodeRuneStream(s)
 	case nul:
 		if !s.read() {
